@@ -4,6 +4,8 @@ package crash2
 
 import (
 	"fmt"
+	"strings"
+	"sync"
 	"testing"
 
 	"github.com/cockroachdb/pebble"
@@ -355,6 +357,180 @@ func runRatchet(c *vlib.Ctx, from, to int, level2 bool, verbose bool) {
 	}
 }
 
+// ---- C40 under I/O errors: one injected error at every FS call position of the ratchet -----------
+
+type ratchetFaultCase struct {
+	From  int `json:"from"`
+	To    int `json:"to"`
+	Fault int `json:"fault"` // 1-based position among the mutating FS calls made during the ratchet
+}
+
+type ratchetInj struct {
+	enabled bool
+	n       int
+	fail    int
+	hit     string
+	dirSync int
+	mu      sync.Mutex
+}
+
+func (in *ratchetInj) String() string { return "c40-fault" }
+func (in *ratchetInj) MaybeError(op errorfs.Op) error {
+	in.mu.Lock()
+	defer in.mu.Unlock()
+	if !in.enabled || !op.Kind.IsWrite() {
+		return nil
+	}
+	in.n++
+	if in.n != in.fail {
+		return nil
+	}
+	if (op.Kind == errorfs.OpFileSync || op.Kind == errorfs.OpFileSyncData || op.Kind == errorfs.OpFileSyncTo) && !strings.Contains(op.Path, ".") {
+		// a failed fsync of a DIRECTORY is fail-stop by design (atomicfs.Marker panics, so do the
+		// WAL and object-provider layers), possibly on a background goroutine: counted, not executed
+		in.dirSync++
+		return nil
+	}
+	in.hit = fmt.Sprintf("#%d %v %s", in.n, op.Kind, op.Path)
+	return errorfs.ErrInjected
+}
+
+var ratchetPre = []hx.Op{{K: "set", Key: "a", Sync: true}, {K: "set", Key: "b", Sync: true}, {K: "flush"}, {K: "compact"},
+	{K: "set", Key: "c", Sync: true}, {K: "flush"}, {K: "del", Key: "a", Sync: true}, {K: "merge", Key: "b", Sync: true}}
+
+// runRatchetFault ratchets from -> to with the fault-th mutating FS call failing (0: none, returns
+// the number of calls). Oracle: whatever RatchetFormatMajorVersion returns, the version the open DB
+// reports is never below the old one, never above the target, and is DURABLE (the strict crash image
+// taken right afterwards reopens at least at that version); a nil return means the target was
+// reached; the data is unchanged, live and after every reopen; a retry that returns nil has made
+// the target durable.
+func runRatchetFault(c *vlib.Ctx, from, to, fault int, verbose bool) int {
+	cs := ratchetFaultCase{from, to, fault}
+	mem := vfs.NewCrashableMem()
+	inj := &ratchetInj{fail: fault}
+	x, err := hx.Open(errorfs.Wrap(mem, inj), "db", hx.Config{Name: fmt.Sprintf("fmv%d", from), FMV: from})
+	if err != nil {
+		c.Violation("open-error", err.Error(), cs)
+		return 0
+	}
+	m := hx.NewModel(bounds...)
+	for i, op := range ratchetPre {
+		if err := x.Apply(i, op); err != nil {
+			c.Violation("op-error", err.Error(), cs)
+			x.D.Close()
+			return 0
+		}
+		m.Apply(op, fmt.Sprintf("v%d", i))
+	}
+	want := m.String()
+	strict := func() *vfs.MemFS {
+		us := mem.VerifCrashUnits()
+		return mem.VerifCrashClone(us, make([]bool, len(us)))
+	}
+	reopenCheck := func(what string, img *vfs.MemFS, minVer int) {
+		y, err := hx.Open(img, "db", hx.Config{Name: "reopen", FMV: from})
+		if err != nil {
+			c.Violation("reopen-failed-after-fault", fmt.Sprintf("ratchet %d->%d fault %s: %s: %v", from, to, inj.hit, what, err), cs)
+			return
+		}
+		got := int(y.D.FormatMajorVersion())
+		st, rerr := observe(y.D)
+		y.D.Close()
+		if rerr != nil {
+			c.Violation("read-after-recovery", fmt.Sprintf("ratchet %d->%d fault %s: %s: %v", from, to, inj.hit, what, rerr), cs)
+			return
+		}
+		if got < minVer || got > to {
+			c.Violation("version-not-durable-after-fault", fmt.Sprintf("ratchet %d->%d fault %s: %s reopens at version %d, want within [%d,%d]", from, to, inj.hit, what, got, minVer, to), cs)
+		}
+		if st != want {
+			c.Violation("data-lost-across-ratchet", fmt.Sprintf("ratchet %d->%d fault %s: %s shows {%s} want {%s}", from, to, inj.hit, what, st, want), cs)
+		}
+	}
+	inj.mu.Lock()
+	inj.enabled = true
+	inj.mu.Unlock()
+	var rerr error
+	panicked := ""
+	func() {
+		defer func() {
+			if r := recover(); r != nil {
+				panicked = fmt.Sprint(r)
+			}
+		}()
+		rerr = x.D.RatchetFormatMajorVersion(pebble.FormatMajorVersion(to))
+	}()
+	inj.mu.Lock()
+	inj.enabled = false
+	calls := inj.n
+	inj.mu.Unlock()
+	if verbose {
+		fmt.Printf("ratchet %d->%d fault %d (%s): returned %v panic %q; %d calls\n", from, to, fault, inj.hit, rerr, panicked, calls)
+	}
+	if fault == 0 {
+		x.D.Close()
+		return calls
+	}
+	c.Eval(1)
+	c.Trans(calls)
+	switch {
+	case inj.dirSync > 0:
+		c.Outcome("fault: not executed (directory fsync failure is fail-stop by design)")
+		x.D.Close()
+		return calls
+	case inj.hit == "":
+		c.Outcome("fault: position not reached")
+		x.D.Close()
+		return calls
+	}
+	c.Nontrivial(vlib.Hash("rf", from, to, fault))
+	if panicked != "" {
+		if !strings.Contains(panicked, "injected") {
+			c.Violation("panic-under-fault", fmt.Sprintf("ratchet %d->%d fault %s: %s", from, to, inj.hit, panicked), cs)
+			return calls
+		}
+		// fail-stop (the instance is abandoned, it may hold its mutex): the directory must recover
+		c.Outcome("fault: fail-stop")
+		reopenCheck("strict crash image after fail-stop", strict(), from)
+		return calls
+	}
+	live := int(x.D.FormatMajorVersion())
+	if live < from || live > to || (rerr == nil && live != to) {
+		c.Violation("live-version-wrong", fmt.Sprintf("ratchet %d->%d fault %s returned %v and the DB reports version %d", from, to, inj.hit, rerr, live), cs)
+	}
+	reopenCheck(fmt.Sprintf("the strict crash image taken after the ratchet returned %v (open DB reports version %d)", rerr, live), strict(), live)
+	if st, err := observe(x.D); err != nil || st != want {
+		c.Violation("data-changed-by-ratchet", fmt.Sprintf("ratchet %d->%d fault %s: live state {%s} err %v, want {%s}", from, to, inj.hit, st, err, want), cs)
+	}
+	final := live
+	if rerr != nil {
+		c.Outcome("fault: ratchet returned the error")
+		if err2 := x.D.RatchetFormatMajorVersion(pebble.FormatMajorVersion(to)); err2 == nil {
+			final = to
+			if got := int(x.D.FormatMajorVersion()); got != to {
+				c.Violation("live-version-wrong", fmt.Sprintf("ratchet %d->%d fault %s: the retry returned nil and the DB reports version %d", from, to, inj.hit, got), cs)
+			}
+			reopenCheck("the strict crash image taken after the RETRY returned nil", strict(), to)
+		} else {
+			c.Outcome("fault: retry without fault fails too")
+			final = int(x.D.FormatMajorVersion())
+		}
+	} else {
+		c.Outcome("fault: absorbed, ratchet returned nil")
+	}
+	if err := x.D.Close(); err != nil {
+		c.Outcome("fault: close error afterwards")
+		return calls
+	}
+	us := mem.VerifCrashUnits()
+	all := make([]bool, len(us))
+	for i := range all {
+		all[i] = true
+	}
+	reopenCheck("the directory after a clean Close", mem.VerifCrashClone(us, all), final)
+	return calls
+}
+
 func checkRatchet(c *vlib.Ctx) {
 	lo, hi := int(pebble.FormatMinSupported), int(pebble.FormatNewest)
 	type pair struct{ a, b int }
@@ -374,6 +550,26 @@ func checkRatchet(c *vlib.Ctx) {
 	if !complete {
 		c.Incomplete(fmt.Sprintf("budget expired after %d of %d version pairs", done, len(pairs)))
 	}
+	// one injected I/O error at every FS call position of every ratchet
+	type fjob struct{ a, b, k int }
+	var fjobs []fjob
+	for _, p := range pairs {
+		if !c.Thorough() && p.b > p.a+3 {
+			continue // quick: targets up to three versions ahead
+		}
+		n := runRatchetFault(c, p.a, p.b, 0, false)
+		for k := 1; k <= n; k++ {
+			fjobs = append(fjobs, fjob{p.a, p.b, k})
+		}
+	}
+	fdone, fcomplete := c.Each(len(fjobs), func(i int) {
+		j := fjobs[i]
+		runRatchetFault(c, j.a, j.b, j.k, false)
+	})
+	if !fcomplete {
+		c.Incomplete(fmt.Sprintf("budget expired after %d of %d (pair, fault position) runs", fdone, len(fjobs)))
+	}
+	c.Note("fault_runs", len(fjobs))
 	c.Note("scope", fmt.Sprintf("all %d pairs v0<v1 of format major versions %d..%d; every FS call of the ratchet a crash point, all survival subsets; second level (crash during recovery) for adjacent pairs (quick) / all pairs (thorough)", len(pairs), lo, hi))
 }
 
@@ -724,6 +920,11 @@ func TestCheck(t *testing.T) {
 				c.LoadReplay(&cs)
 				runMarker(c, cs.Script, true)
 			case "C40":
+				var fc ratchetFaultCase
+				if c.LoadReplay(&fc) == nil && fc.Fault > 0 {
+					runRatchetFault(c, fc.From, fc.To, fc.Fault, true)
+					return
+				}
 				var cs ratchetCase
 				c.LoadReplay(&cs)
 				runRatchet(c, cs.From, cs.To, true, true)
